@@ -75,7 +75,8 @@ def lstmParams (o : Json) : Except String (LstmParams Int) := do
 def gruParams (o : Json) : Except String (GruParams Int) := do
   .ok { ir := ← getMat o "ir", iz := ← getMat o "iz", iN := ← getMat o "in",
         bir := ← getVec o "bir", biz := ← getVec o "biz", biN := ← getVec o "bin",
-        hr := ← getMat o "hr", hz := ← getMat o "hz", hn := ← getMat o "hn", bhn := ← getVec o "bhn" }
+        hr := ← getMat o "hr", hz := ← getMat o "hz", hn := ← getMat o "hn",
+        bhn := ← asOpt (asList asInt) (← (o.getObjVal? "bhn").mapError fun _ => "bad-args") }
 
 def jVec (v : List Int) : Json := jList jInt v
 
@@ -184,6 +185,12 @@ def handle : Handler := fun fn args =>
       let h ← asList asInt (← argAt args 1)
       let x ← asList asInt (← argAt args 2)
       let r := gruStep sigmaI tauI p h x
+      .ok (Json.arr #[jVec r.1, jVec r.2])
+  | "gru_nnx" => do
+      let o ← argAt args 0
+      let h ← asList asInt (← argAt args 1)
+      let x ← asList asInt (← argAt args 2)
+      let r := gruStepNnx sigmaI tauI h.length (← getMat o "wi") (← getVec o "bi") (← getMat o "wh") h x
       .ok (Json.arr #[jVec r.1, jVec r.2])
   | "mgu" => do
       let o ← argAt args 0
